@@ -144,7 +144,7 @@ fn num(v: &Val, f: &str) -> Option<u128> {
 
 pub fn run(ctx: &Ctx) -> i32 {
     let mut report = ctx.report("C08", "exploration");
-    report.rule = "scenarios begin(token) -> commit(token, final) (and interleaved pairs of transactions) against the simulated terminal: configured pre-authorisation amount over {0, 1, 10^k-1/10^k/10^k+1, 10^12-1, random}, final amount over {0, pre-1, pre, pre+1, 2^32-1, 2^32, 2^32+1, u64::MAX, u64::MAX-1, 2^63+pre, random}, currency 0..9999, tokens = CP437 text (any byte, no trailing NUL) of 0..200 characters, a third of them built around string literals harvested from the repository's own sources (a token equal to / starting with / ending in a constant of the implementation), first receipt number 1..9999, the terminal's status fields over their full BCD ranges or absent; in a third of the scenarios a card is read before / between the transaction calls, its status information carrying an amount, a receipt number and a maximum pre-authorisation amount (TLV 1F0B) below / at / above the configured amount; in a quarter of the scenarios the link fails once during the reservation (close/garbage/silence/NACK at a random packet), so that the client re-sends it and the terminal issues a second receipt number. Oracle: the requests the terminal decodes with the reference codec: Reservation{amount=cfg, currency=cfg, reference 1F63=token}; PartialReversal{87=issued receipt, 04=max(pre-final,0) computed in u128, 49=cfg, reference 1F63=token} (payment type and reference prefix are recorded, not judged: the statement does not mention them); ledger balance reserved-released=min(pre,final); summary fields numerically equal to the last status information. Non-trivial = scenario in which the commit reached the terminal; distinct by hash of (config, token, final, receipt, status fields).".into();
+    report.rule = "scenarios begin(token) -> commit(token, final) (and interleaved pairs of transactions) against the simulated terminal: configured pre-authorisation amount over {0, 1, 10^k-1/10^k/10^k+1, 10^12-1, random}, final amount over {0, pre-1, pre, pre+1, 2^32-1, 2^32, 2^32+1, u64::MAX, u64::MAX-1, 2^63+pre, random}, currency 0..9999, tokens = CP437 text (any byte, no trailing NUL) of 0..200 characters, a third of them built around string literals harvested from the repository's own sources (a token equal to / starting with / ending in a constant of the implementation), first receipt number 1..9999, the terminal's status fields over their full BCD ranges or absent; in a third of the scenarios a card is read before / between the transaction calls, its status information carrying an amount, a receipt number and a maximum pre-authorisation amount (TLV 1F0B) below / at / above the configured amount; in a quarter of the scenarios the link fails once during the reservation (close/garbage/silence/NACK/reply-then-close at a random packet), so that the client re-sends it and the terminal issues a second receipt number. Oracle: the requests the terminal decodes with the reference codec: Reservation{amount=cfg, currency=cfg, reference 1F63=token}; PartialReversal{87=issued receipt, 04=max(pre-final,0) computed in u128, 49=cfg, reference 1F63=token} (payment type and reference prefix are recorded, not judged: the statement does not mention them); ledger balance reserved-released=min(pre,final); summary fields numerically equal to the last status information. Non-trivial = scenario in which the commit reached the terminal; distinct by hash of (config, token, final, receipt, status fields).".into();
     report.exhaustive = Some(false);
     report.assumptions = vec!["string formatting of date/time/terminal id beyond numeric equality is not judged".into(), "64-bit usize (amounts are usize in the configuration)".into()];
     let schema = Arc::new(refcodec::zvt_schema());
@@ -243,7 +243,7 @@ fn one(r: &mut Report, rng: &mut Rng, schema: &Arc<refcodec::layout::Schema>, di
     // the terminal issues a new receipt number, and the commit must act on the receipt of the reservation that completed
     let faulted = rng.chance(1, 4);
     if faulted {
-        let kind = *rng.pick(&[FaultKind::Close, FaultKind::Garbage, FaultKind::Silence, FaultKind::Nack]);
+        let kind = *rng.pick(&[FaultKind::Close, FaultKind::Garbage, FaultKind::Silence, FaultKind::Nack, FaultKind::CloseAfter]);
         sc.plan.faults.push(FaultSpec { call: first_begin_call, at: At::Tx(rng.below(4) as usize), kind });
         sc.plan.push(first_begin_call, Cmd::Reservation, ExPlan { pre: vec![Pre::Intermediate { status: 0x0e, timeout: 0 }], ..ExPlan::default() });
     }
